@@ -1030,13 +1030,11 @@ func evalThrowExceptionStmt(vm *r.VM, node *syntax.ThrowExceptionStmt) error {
 		return zerr.InvalidExceptionType(expClassID.GetLiteral())
 	}
 	// exec expressions, similiar to "新建XX" statement
-	var exprs []r.Element
-	for _, param := range node.Params {
-		exprI, err := evalExpression(vm, param)
-		if err != nil {
-			return err
-		}
-		exprs = append(exprs, exprI)
+	// (the arguments are evaluated like those of any call: once, left to right, each one
+	// the value it has at that moment)
+	exprs, err := exprsToValues(vm, node.Params)
+	if err != nil {
+		return err
 	}
 
 	// build exception value!
